@@ -71,6 +71,32 @@ def run(case):
         if abs(s(acc) - exp) > 1e-9 * max(1, abs(exp)):
             return "stock at route %r to grid point %r is %r, expected %r" % (acc, t, s(acc), exp)
         acc = acc + dt
+    # ONE model object evaluated on a coarse grid first and then re-specified to this grid the way the scenario runner does it
+    # (SdSimulation.change_runspecs assigns starttime / stoptime / dt directly): the grid in force is the model's current one
+    from BPTK_Py.sdsimulation import SdSimulation
+    mc = Model(starttime=0.0, stoptime=3.0, dt=1.0, name="mc")
+    tmc = mc.converter("tm"); tmc.equation = sd.time()
+    sc = mc.stock("s"); fc = mc.flow("f"); sc.initial_value = 0.0; fc.equation = 1.0; sc.equation = fc
+    simc = SdSimulation(model=mc, name="coarse-then-fine")
+    dfc = simc.start(output=["frame"], equations=["tm", "s"])
+    if [float(x) for x in dfc.index] != [0.0, 1.0, 2.0, 3.0]:
+        return "coarse run (0,3,1): index %r" % ([float(x) for x in dfc.index],)
+    simc.change_runspecs(starttime=start, stoptime=stop, dt=dt)
+    mc.reset_cache()
+    try:
+        dfc = simc.start(output=["frame"], equations=["tm", "s"])
+    except RecursionError:
+        return "model re-specified from (0,3,1) to (%r,%r,%r): RecursionError (t-dt does not move down the grid)" % (start, stop, dt)
+    if [float(x) for x in dfc.index] != g:
+        return "model re-specified from (0,3,1) to (%r,%r,%r): index %r, expected %r" % (start, stop, dt, [float(x) for x in dfc.index][:12], g[:12])
+    if [float(x) for x in dfc["tm"]] != g:
+        return "model re-specified from (0,3,1) to (%r,%r,%r): time converter reports %r at labels %r" % (start, stop, dt, [float(x) for x in dfc["tm"]][:8], g[:8])
+    for i, t in enumerate(g):
+        exp = float(Decimal(str(dt)) * i)
+        if abs(float(dfc["s"][t]) - exp) > 1e-9 * max(1, abs(exp)):
+            return "model re-specified from (0,3,1) to (%r,%r,%r): stock at %r is %r, expected %r" % (start, stop, dt, t, float(dfc["s"][t]), exp)
+        if tmc(start + i * dt) != t:
+            return "model re-specified from (0,3,1) to (%r,%r,%r): evaluation at %r gives %r, expected %r" % (start, stop, dt, start + i * dt, tmc(start + i * dt), t)
     b = bptk()
     try:
         b.register_model(m)
